@@ -30,6 +30,7 @@ type c06kb struct {
 	Group  string
 	OnSync bool
 	Queue  string
+	Ns     string // namespace.nameSelector.matchNames: [Ns]
 }
 
 type c06hook struct {
@@ -143,6 +144,18 @@ func c06run(c *vlib.Case, res *vlib.Result) {
 			hooks = append(hooks, &c06hook{Rel: rel, Kube: []c06kb{{Name: "k0", OnSync: true}, {Name: "k1", OnSync: true, Queue: "q1"}}, FailAt: []int{1}})
 		}
 	}
+	listFails := false
+	if c.Index%4 == 3 {
+		// catalogue: the first list request of a hook's SECOND binding fails once (a transient API error): the
+		// hook's EnableKubernetesBindings task fails after the first binding's monitor was created, and is
+		// retried; both bindings must still get their Synchronization exactly once
+		rel := "mn-second-list-fails"
+		if !used[rel] {
+			used[rel] = true
+			listFails = true
+			hooks = append(hooks, &c06hook{Rel: rel, Kube: []c06kb{{Name: "k0", OnSync: true}, {Name: "k1", OnSync: true, Ns: "nsfail"}}})
+		}
+	}
 	sort.Slice(hooks, func(i, j int) bool { return hooks[i].Rel < hooks[j].Rel })
 	for _, h := range hooks {
 		var cfg m
@@ -182,6 +195,9 @@ func c06run(c *vlib.Case, res *vlib.Result) {
 				if kb.Queue != "" {
 					d["queue"] = kb.Queue
 				}
+				if kb.Ns != "" {
+					d["namespace"] = m{"nameSelector": m{"matchNames": []any{kb.Ns}}}
+				}
 				ks = append(ks, d)
 			}
 			if len(ks) > 0 {
@@ -205,7 +221,18 @@ func c06run(c *vlib.Case, res *vlib.Result) {
 	}
 	settled := false
 	inBubble(c, func(t *testing.T) {
-		sys, err := vlib.NewSys(hs, nil)
+		vc := vlib.NewVCluster()
+		if listFails {
+			failed := false
+			vc.FailList(func(resource, ns string) error {
+				if resource == "configmaps" && ns == "nsfail" && !failed {
+					failed = true
+					return fmt.Errorf("injected: the API server is temporarily unavailable")
+				}
+				return nil
+			})
+		}
+		sys, err := vlib.NewSys(hs, vc.Cluster)
 		if err != nil {
 			res.Inconclusive = "assemble: " + err.Error()
 			sys.StopNow()
